@@ -448,42 +448,42 @@ func (d *cfgDynamic) reflect(opts *options) (rv reflect.Value, err error) {
 }
 
 func (d *cfgDynamic) reify(opts *options) (rv interface{}, err error) {
-	d.withValue(&err, opts, func(v value) {
+	d.withScopedValue(&err, opts, func(v value) {
 		rv, err = v.reify(opts)
 	})
 	return
 }
 
 func (d *cfgDynamic) toBool(opts *options) (b bool, err error) {
-	d.withValue(&err, opts, func(v value) {
+	d.withScopedValue(&err, opts, func(v value) {
 		b, err = v.toBool(opts)
 	})
 	return
 }
 
 func (d *cfgDynamic) toString(opts *options) (s string, err error) {
-	d.withValue(&err, opts, func(v value) {
+	d.withScopedValue(&err, opts, func(v value) {
 		s, err = v.toString(opts)
 	})
 	return
 }
 
 func (d *cfgDynamic) toInt(opts *options) (i int64, err error) {
-	d.withValue(&err, opts, func(v value) {
+	d.withScopedValue(&err, opts, func(v value) {
 		i, err = v.toInt(opts)
 	})
 	return
 }
 
 func (d *cfgDynamic) toUint(opts *options) (u uint64, err error) {
-	d.withValue(&err, opts, func(v value) {
+	d.withScopedValue(&err, opts, func(v value) {
 		u, err = v.toUint(opts)
 	})
 	return
 }
 
 func (d *cfgDynamic) toFloat(opts *options) (f float64, err error) {
-	d.withValue(&err, opts, func(v value) {
+	d.withScopedValue(&err, opts, func(v value) {
 		f, err = v.toFloat(opts)
 	})
 	return
@@ -494,6 +494,21 @@ func (d *cfgDynamic) toConfig(opts *options) (cfg *Config, err error) {
 		cfg, err = v.toConfig(opts)
 	})
 	return
+}
+
+// withScopedValue is withValue for the operations that completely consume the
+// resolved value before they return (conversion to a primitive, reify). The
+// references followed while doing so are registered as active (for cycle
+// detection) only for that time: the same variable may be used again
+// afterwards, e.g. by a second reference in the same string or by a sibling
+// path of a diamond, without being mistaken for a cycle. toConfig and friends
+// hand the resolved object back to a caller that descends into it later, so
+// for them the references have to stay active.
+func (d *cfgDynamic) withScopedValue(err *error, opts *options, fn func(value)) {
+	parentFields := opts.activeFields
+	opts.activeFields = newFieldSet(parentFields)
+	defer func() { opts.activeFields = parentFields }()
+	d.withValue(err, opts, fn)
 }
 
 func (d *cfgDynamic) withValue(err *error, opts *options, fn func(value)) {
